@@ -290,7 +290,7 @@ func runC02(r *ev.Run) {
 	// Phase 4: backends, tiny caches, reopen, write-log replay.
 	c02Backends(r, sub, subVals, subOps, violate)
 
-	r.Set("traces_validated_against_impl", r.Get("transitions"))
+	r.Alias("traces_validated_against_impl", "transitions")
 	r.Set("rule", "phase1: all contents over 8 keys x {absent,\"\",a,b}, 4 constructions, root == contents-only canonical hash, roots injective; phase2: closure (every letter from every canonical state yields the canonical physical shape); phase3: commit, all op sequences <= L over the sub-alphabet, commit; phase4: same on badger/pathbadger with cache capacity 1/2/unbounded, reopen at root, write-log replay")
 	r.Assume("SHA-512/256 (common/crypto/hash) is trusted and collision free on the explored universe", "keys outside the 8-key alphabet and values other than \"\", a, b are not covered")
 	r.Finish()
